@@ -526,6 +526,112 @@ def boundary_square(chk):
                                         "(implementation = Python exact integers = model; max/min/true_div/to_float: implementation = Python)"}}
 
 
+# ---------------------------------------------------------------- exhaustive pow cross product
+POW_BASES = [0, 1, -1, 2, -2, 3, 10, 2**63, -2**63, 2**64]
+POW_SMALL_EXP = [0, 1, 2, 3, 63, 64, 65]
+POW_NEG_EXP = [-1, -2, -3, -63, -64, -65]
+POW_MID_EXP = [2**31 - 1, 2**31 + 1, 2**32 - 1, 2**32 + 1, 2**62, 2**63 - 1, 2**63, 2**63 + 1, 2**64 - 1]     # fit a machine word
+POW_HUGE_EXP = [2**64, 2**64 + 1, 2**64 + 2, 2**65, 2**127, 2**127 + 1, 2**128, 2**128 + 1]                    # do not
+POW_SIZE_LIMIT = 10_000_000
+VIOL_ALLOC = "viol AllocationLimitReached"
+
+
+def unit_power(a, e):
+    """closed form for the bases 0, 1, -1 (any exponent >= 0)"""
+    return (1 if e == 0 else 0) if a == 0 else (1 if a == 1 or e % 2 == 0 else -1)
+
+
+def pow_cross(chk):
+    """EXHAUSTIVE (both tiers): bases x exponents through `**`, `pow(a, b)` and LazyBigint::pow (canonical and forced-Long
+    operands).  Documented outcomes: negative exponent and 0**0 are error values; bases 0, 1, -1 have the closed form for every
+    exponent; other bases: exact up to exponent 65, "exponent too large" beyond the machine word, and for a huge exponent that
+    still fits a machine word the allocation pre-flight must stop the run under a size limit."""
+    exps = POW_SMALL_EXP + POW_MID_EXP + POW_HUGE_EXP + POW_NEG_EXP
+    # ---------------- LazyBigint::pow directly
+    cases = []
+    for a in POW_BASES:
+        for e in exps:
+            if abs(a) > 1 and e > 65:
+                continue                      # would really be computed (no guard at this level)
+            want = "PANIC" if e < 0 else tag(unit_power(a, e) if abs(a) <= 1 else a ** e)
+            cases.append(("pow", {"op": "int", "f": "pow", "a": str(a), "b": str(e)}, f"int pow {a} {e}", want, (a, e)))
+            if e >= 0:
+                for la, lb in ((True, False), (False, True), (True, True)):     # representations `From` never produces
+                    cases.append(("pow_nc", {"op": "int", "f": "pow_nc", "a": str(a), "b": str(e), "la": la, "lb": lb},
+                                  f"int pow_nc {int(la)} {int(lb)} {a} {e}", "VAL " + str(unit_power(a, e) if abs(a) <= 1 else a ** e), (a, e)))
+    impl = run_harness([c[1] for c in cases])
+    model = run_model([c[2] for c in cases])
+    for (f, req, line, want, inp), ri, rm in zip(cases, impl, model):
+        chk.evaluations += 1
+        chk.count("powx:unit:" + f)
+        got = "PANIC" if "panic" in ri else ri.get("r", json.dumps(ri))
+        gm = "PANIC" if rm.startswith("panic") else rm
+        if any(abs(x) > I64_MAX for x in inp):
+            chk.nontrivial.add(("powx", f) + tuple(inp))
+        if want == "PANIC":
+            if got != gm:
+                chk.violation(f"tie:powx:unit:{f}:precondition", f"model/impl disagree outside the precondition of {f}{inp}: impl={got} model={gm}",
+                              {"harness": req, "model": line, "impl": got, "model_out": gm}, no_input=True)
+            continue
+        ok = (got == want) if not want.startswith("VAL ") else (got[:2] in ("S ", "L ") and got[2:] == want[4:])
+        if not ok:
+            chk.violation(f"powx:unit:{f}:{'panic' if got == 'PANIC' else 'wrong'}",
+                          f"LazyBigint {f}{inp} = {got if got != 'PANIC' else ri.get('panic')}, exact result is {want} (pow cross product)",
+                          {"harness": req, "expected": want, "got": ri})
+        elif gm != got:
+            chk.violation(f"tie:powx:unit:{f}", f"model disagrees with implementation (which is right) on {f}{inp}: model={gm} impl={got}",
+                          {"harness": req, "model": line, "impl": got, "model_out": gm}, no_input=True)
+    # ---------------- through the language
+    plain, limited = [], []      # (name, expr, model_line, want, inputs)
+    for a in POW_BASES:
+        for e in exps:
+            for sp, tmpl in (("b.pow", "{a} ** {b}"), ("b.pow.fn", "pow({a}, {b})")):
+                expr = tmpl.format(a=lit(a), b=lit(e))
+                mline = f"int b.pow {a} {e}"
+                if e < 0 or (a == 0 and e == 0):
+                    plain.append((sp, expr, mline, ERR, (a, e)))
+                elif abs(a) <= 1:
+                    plain.append((sp, expr, mline, o_int(unit_power(a, e)), (a, e)))
+                elif e <= 65:
+                    plain.append((sp, expr, mline, o_int(a ** e), (a, e)))
+                elif e >= 2**64:
+                    plain.append((sp, expr, mline, ERR, (a, e)))
+                else:
+                    limited.append((sp + ".limit", expr, None, VIOL_ALLOC, (a, e)))
+    # equal integers by different routes: (b**e1)**e2, b**(e1*e2) and the closed form, compared by ==, cmp, hash, to_str
+    for a in (0, 1, -1):
+        for e1, e2 in ((2**32, 2**32), (2**32 + 1, 2**32 + 1), (2**63, 2), (3, 2**64), (2**64 + 1, 2**64 + 1), (2**64 + 1, 2**64), (5, 7)):
+            x, y, z = f"({lit(a)} ** {e1}) ** {e2}", f"{lit(a)} ** {e1 * e2}", lit(unit_power(a, e1 * e2))
+            for nm, expr in (("eq", f"{x} == {y}"), ("eq", f"{y} == {z}"), ("cmp", f"cmp({x}, {z}) == 0"), ("cmp", f"cmp({y}, {x}) == 0"),
+                             ("hash", f"hash({y}) == hash({z})"), ("hash", f"hash({x}) == hash({z})"),
+                             ("to_str", f"to_str({y}) == to_str({z})"), ("to_str", f"to_str({x}) == to_str({z})")):
+                plain.append(("route.pow." + nm, expr, None, o_bool(True), (a, e1, e2)))
+    dumps = eval_exprs([c[1] for c in plain], chunk=40) + eval_exprs([c[1] for c in limited], limits={"size": POW_SIZE_LIMIT}, chunk=1)
+    allc = plain + limited
+    mlines = [(k, c[2]) for k, c in enumerate(allc) if c[2]]
+    mres = dict(zip([k for k, _ in mlines], run_model([l for _, l in mlines])))
+    for k, ((name, expr, mline, want, inp), d) in enumerate(zip(allc, dumps)):
+        chk.evaluations += 1
+        chk.count("powx:lang:" + name)
+        if any(abs(x) > I64_MAX for x in inp):
+            chk.nontrivial.add(("powx", name) + tuple(inp))
+        got = d if d.startswith("viol ") else canon_impl(d)
+        replay = {"src": f"let r = {expr};", "get": ["r"], "expected": want, "got": d}
+        if want == VIOL_ALLOC:
+            replay["limits"] = {"size": POW_SIZE_LIMIT}
+        if got != want:
+            kind = "panic" if got == "PANIC" else ("hang" if d == "hang" else "wrong")
+            chk.violation(f"powx:lang:{name}:{kind}", f"{expr} evaluates to {d}; the documented exact outcome is {want} (pow cross product)", replay)
+        elif k in mres and model_to_dump(mres[k]) != got:
+            chk.violation(f"tie:powx:lang:{name}", f"model disagrees with the implementation (which matches the oracle) on {expr}: model={mres[k]} impl={d}",
+                          {"src": replay["src"], "model": mline, "model_out": mres[k], "impl": d}, no_input=True)
+    return {"pow_cross_product": {"bases": [str(b) for b in POW_BASES], "exponents": [str(e) for e in exps], "exhaustive": True,
+                                  "levels": ["LazyBigint::pow (canonical operands)", "LazyBigint::pow (operands forced to Long)", "a ** b", "pow(a, b)"],
+                                  "evaluations": len(cases) + len(allc),
+                                  "note": "every base x exponent pair in both tiers; |base| >= 2 with a word-sized exponent above 65 only through the language "
+                                          "under a size limit (expected: allocation violation); routes (b**e1)**e2 = b**(e1*e2) = closed form by ==, cmp, hash, to_str"}}
+
+
 def run(chk):
     rng = chk.rng
     quick = chk.tier == "quick"
@@ -538,6 +644,7 @@ def run(chk):
         handle_broken(chk)
 
     square_cov = boundary_square(chk)
+    square_cov.update(pow_cross(chk))
 
     pool = boundary_pool(rng, 24 if quick else 120)
     small_pool = [v for v in pool if abs(v) <= 2**65]
@@ -828,7 +935,10 @@ def replay(path):
     r = rec.get("replay", {})
     key = rec.get("key", "?")
     if "src" in r and "expected" in r:
-        resp = run_harness([{"op": "run", "src": r["src"], "get": r.get("get", ["r"])}])[0]
+        rq = {"op": "run", "src": r["src"], "get": r.get("get", ["r"])}
+        if "limits" in r:
+            rq["limits"] = r["limits"]
+        resp = run_harness([rq])[0]
         from .common import _resp_fail
         f = _resp_fail(resp)
         got = canon_impl(f if f is not None else resp["vals"][r.get("get", ["r"])[0]])
